@@ -458,3 +458,37 @@ def rule_sfread(ctx: Ctx) -> List[Ob]:
                 obs.append(ob("SFREAD", "only evaluators / counters / scaling factor of the wrapper are used by the solver", f, e, ok,
                               f"reflective access `{short(e)}`", False, construct=f"{f.qual}: {short(e)}"))
     return obs
+
+
+@rule("EVALPT", min_instances=2)
+def rule_evalpt(ctx: Ctx) -> List[Ob]:
+    """where the objective is evaluated: the counting wrappers are called by the package at the cached point self.x only
+    (which BOX proves inside the box), and the only other use of the objective wrapper is as the function handed to SciPy's
+    approx_derivative (whose stencil FDB confines to the box through `bounds`).  A hand-made difference loop, or any other
+    call at a computed point, evaluates the user's function where nothing proves feasibility"""
+    init = ctx.repo.func(CLS + ".__init__")
+    obs: List[Ob] = []
+    parents = {id(c): p for p in ast.walk(init.node) for c in ast.iter_child_nodes(p)}
+    for wname in ("fun_wrapped", "grad_wrapped"):
+        defs = [d for d in ast.walk(init.node) if isinstance(d, ast.FunctionDef) and d.name == wname]
+        if not defs:
+            if wname == "fun_wrapped":
+                raise AnalysisError("EVALPT: closure fun_wrapped not found")
+            continue
+        for n in ast.walk(init.node):
+            if not (isinstance(n, ast.Name) and n.id == wname and isinstance(n.ctx, ast.Load)):
+                continue
+            p = parents.get(id(n))
+            if isinstance(p, ast.Call) and p.func is n:
+                ok = len(p.args) == 1 and not p.keywords and src(p.args[0]) == "self.x"
+                obs.append(ob("EVALPT", "the counting wrapper is called at the cached point only", init, p, ok,
+                              f"{short(p, 60)}" + ("" if ok else ": evaluated at a point other than self.x -- nothing confines it to the box"),
+                              construct=f"{wname}({short(p.args[0], 30) if p.args else ''})"))
+            elif isinstance(p, ast.Call) and (dotted(p.func) or "").split(".")[-1] == "approx_derivative" and p.args and p.args[0] is n:
+                obs.append(ob("EVALPT", "the objective wrapper is otherwise only handed to approx_derivative", init, p, True,
+                              f"{short(p, 70)}", construct=f"approx_derivative({wname}, ..)"))
+            else:
+                obs.append(ob("EVALPT", "the objective wrapper is otherwise only handed to approx_derivative", init, p if p is not None else n, False,
+                              f"`{wname}` is used in `{short(p, 70) if p is not None else wname}`: it can be called there at arbitrary points",
+                              construct=f"{wname} in {short(p, 40) if p is not None else '?'}"))
+    return obs
